@@ -325,6 +325,39 @@ fn run_all(rep: &mut Report) {
     }
     check_codec("RawResponseMessage", true, &frames, &RawResponseMessageDecoder::default,
         &|item: ResponseMessage<BytesStr, Bytes, Bytes>, out: &mut BytesMut| RawResponseMessageEncoder.encode(item, out).is_ok(), rep);
+
+    // ---- the typed response encoder (Recon-printed bodies), decoded by the raw decoder; and for every encoder: encoding a frame
+    // into a buffer that already holds another frame appends exactly that frame and leaves the earlier bytes alone
+    let typed: Vec<ResponseMessage<&str, i32, &[u8]>> = {
+        let mut v = vec![];
+        for p in &paths[..2] {
+            v.push(ResponseMessage { origin: id, path: p.clone(), envelope: Notification::Linked });
+            v.push(ResponseMessage { origin: id, path: p.clone(), envelope: Notification::Synced });
+            v.push(ResponseMessage { origin: id, path: p.clone(), envelope: Notification::Unlinked(None) });
+            v.push(ResponseMessage { origin: id, path: p.clone(), envelope: Notification::Unlinked(Some(&b"x"[..])) });
+            for n in [0i32, -77, 123456] {
+                v.push(ResponseMessage { origin: id, path: p.clone(), envelope: Notification::Event(n) });
+            }
+        }
+        v
+    };
+    let frames: Vec<Vec<u8>> = typed.iter().map(|m| enc(ResponseMessageEncoder, m.clone())).collect();
+    if rep.mode == Mode::Fragmentation {
+        let name = "ResponseMessage(typed i32 bodies)";
+        for (a, ea) in typed.iter().zip(frames.iter()) {
+            for (b, eb) in typed.iter().zip(frames.iter()) {
+                rep.evaluations += 1;
+                let mut buf = BytesMut::new();
+                let ok = ResponseMessageEncoder.encode(a.clone(), &mut buf).is_ok() && ResponseMessageEncoder.encode(b.clone(), &mut buf).is_ok();
+                let mut expected = ea.clone();
+                expected.extend_from_slice(eb);
+                if !ok || buf.as_ref() != expected.as_slice() {
+                    rep.frag_fail.entry(name.to_string()).or_insert(format!("{name}: encoding {:?} and then {:?} into ONE buffer gives {:?}; each encoded on its own gives {:?}", a, b, buf.as_ref(), expected));
+                }
+            }
+        }
+    }
+    check_codec("ResponseMessage(typed i32 bodies)", true, &frames, &RawResponseMessageDecoder::default, &no_reenc::<ResponseMessage<BytesStr, Bytes, Bytes>>, rep);
 }
 
 // child: runs the robustness variants from VERIF_BX_SKIP on, writing its progress before every variant
